@@ -10,6 +10,8 @@ package main
 //   rand        math/rand, crypto/rand
 //   global      use of a package-level map / sync.Pool / sync.Once / lru cache variable
 //   global-write  assignment to / increment of any package-level variable
+//   ncpu          use of runtime.NumCPU / runtime.GOMAXPROCS, with the text of the statement that uses it (the
+//                 worker-count expression of a parallel helper)
 //   field-write   assignment to a field of a value whose type may be reachable from a package-level variable
 //                 (e.g. the plugin instances registered in executor.globalPlugins)
 // A site is named by package-relative file, enclosing function and an ordinal inside the function (no line
@@ -18,6 +20,7 @@ package main
 import (
 	"fmt"
 	"go/ast"
+	"go/printer"
 	"go/token"
 	"go/types"
 	"os"
@@ -66,6 +69,35 @@ func fnKey(f *types.Func) string {
 		return pkg + ".?." + f.Name()
 	}
 	return pkg + "." + f.Name()
+}
+
+// enclosingStmt prints the innermost simple statement (assignment, declaration, expression, if/for header) around pos.
+func enclosingStmt(fset *token.FileSet, body *ast.BlockStmt, pos token.Pos) string {
+	var best ast.Node
+	ast.Inspect(body, func(x ast.Node) bool {
+		if x == nil || pos < x.Pos() || pos >= x.End() {
+			return x == nil || (pos >= x.Pos() && pos < x.End())
+		}
+		switch s := x.(type) {
+		case *ast.AssignStmt, *ast.ExprStmt, *ast.DeclStmt, *ast.ReturnStmt, *ast.IncDecStmt:
+			best = s
+		case *ast.IfStmt:
+			if s.Cond != nil && pos >= s.Cond.Pos() && pos < s.Cond.End() {
+				best = s.Cond
+			}
+		case *ast.ForStmt:
+			if s.Cond != nil && pos >= s.Cond.Pos() && pos < s.Cond.End() {
+				best = s.Cond
+			}
+		}
+		return true
+	})
+	if best == nil {
+		return "?"
+	}
+	var sb strings.Builder
+	_ = printer.Fprint(&sb, fset, best)
+	return strings.Join(strings.Fields(sb.String()), " ")
 }
 
 // rootIdent strips index, field, dereference and parentheses from an assignment target.
@@ -373,6 +405,9 @@ func extractSites(repo string) ([]string, error) {
 						add("clock", "types."+f.Name())
 					case p == "math/rand" || p == "crypto/rand":
 						add("rand", p+"."+f.Name())
+					case p == "runtime" && (f.Name() == "NumCPU" || f.Name() == "GOMAXPROCS"):
+						// the worker-count expression itself is part of the site: changing it changes the list
+						add("ncpu", "runtime."+f.Name()+" in `"+enclosingStmt(n.pkg.Fset, n.decl.Body, e.Pos())+"`")
 					}
 				}
 			case *ast.Ident:
